@@ -9,6 +9,8 @@ import GfsProofs.BlocksLemmas
 import GfsProofs.NormLemmas
 import GfsProofs.StrParse
 import GfsProps.C02
+import GfsGen.Facts
+import GfsModel.ExpectedSrc
 
 namespace Gfs.Props.C08
 open Gfs Gfs.Spec Gfs.Proofs
@@ -151,5 +153,10 @@ theorem C08_order_insensitive (t1 t2 : Bytes) (f1 f2 : FrameSet)
 example : ∃ fs, FrameSet.parse "10-1x3,5".toList = .ok fs ∧ fs.frames = [10, 7, 4, 1, 5] ∧
     fs.normalize.frames = [1, 4, 5, 7, 10] ∧ fs.invert.frames = [2, 3, 6, 8, 9] := by
   refine ⟨_, rfl, ?_, ?_, ?_⟩ <;> decide
+
+/-- the declarations of /repo this property's model and specification were written from are,
+    on this run, the ones the model was last aligned with (digest of their comment- and
+    layout-insensitive fingerprints, re-extracted by tools/gofacts) -/
+theorem C08_source : Gfs.Gen.sourceDigestC08 = Gfs.expectedSourceDigestC08 := by decide
 
 end Gfs.Props.C08
